@@ -57,6 +57,9 @@ func (l LineSegment) IsPointOnSegment(point Point) bool {
 
 // ClosestPoint 计算一个点到该线段的最近的点
 func (l LineSegment) ClosestPoint(point Point) Point {
+	if l[0].Equal(l[1]) {
+		return l[0].Clone()
+	}
 	ax, ay := l[0].GetXY()
 	bx, by := l[1].GetXY()
 	ds := l[0].DistanceSquared2D(l[1])
